@@ -113,7 +113,7 @@ def generate(rng, tier):
         spec = G.gen_spec(rng, nmin=2, nmax=3, allow_log=False, prob_kinds=KINDS)
         T = rng.choice(TS)
         q4 = [q for q in c04.gen_queries(rng, spec, 6) if not q['byname']]
-        q5 = [q for q in c05.gen_queries(rng, spec, 3) if not q['byname'] and q['m'] != 'caekl']
+        q5 = [q for q in c05.gen_queries(rng, spec, 3) if not q['byname'] and q['m'] != 'caekl' and not q.get('rvs_none')]   # rvs=None cannot be re-addressed by name
         # keep queries valid so that both presentations return values
         q4 = [q for q in q4 if all(i < spec['n'] for key in ('X', 'Y', 'cr') for i in (q.get(key) or []))]
         seed = rng.randint(0, 10 ** 9)
